@@ -766,6 +766,22 @@ def m_max_min(kind):
             x, y = a.fields[0], b.fields[0]
             r = z3.If(z3.UGT(x, y), x, y) if kind == "max" else z3.If(z3.ULT(y, x), y, x)
             return [(T(), "ret", Adt(a.name, [r], a.variant))]
+        if isinstance(a, Adt) and isinstance(b, Adt):
+            # any other type: run the type's own `Ord::cmp` body (e.g. a derived lexicographic order)
+            ty = re.sub(r"^.*::<(.+)>$", r"\1", name).split("::")[-1]
+            cmpf = mach.find("::cmp", param_types=["&" + ty, "&" + ty])
+            res = []
+            for (c, k, v) in mach.exec_fn(cmpf, [Ref(a), Ref(b)]):
+                if k != "ret":
+                    res.append((c, k, v))
+                    continue
+                # Ord::max: `if other < self { self } else { other }`; Ord::min: `if other < self { other } else { self }`
+                other_lt_self = (v.variant == "Greater")
+                if kind == "max":
+                    res.append((c, "ret", a if other_lt_self else b))
+                else:
+                    res.append((c, "ret", b if other_lt_self else a))
+            return res
         if not (z3.is_bv(a) and z3.is_bv(b)):
             raise NotMine()
         if kind == "max":
@@ -779,6 +795,15 @@ def m_int_partial_cmp(mach, name, args):
     return [(z3.ULT(a, b), "ret", Adt("Option", [Adt("Ordering", [], "Less")], "Some")),
             (a == b, "ret", Adt("Option", [Adt("Ordering", [], "Equal")], "Some")),
             (z3.UGT(a, b), "ret", Adt("Option", [Adt("Ordering", [], "Greater")], "Some"))]
+
+
+def m_int_cmp(mach, name, args):
+    a, b = [x.val if isinstance(x, Ref) else x for x in args]
+    if not (z3.is_bv(a) and z3.is_bv(b)):
+        raise NotMine()
+    return [(z3.ULT(a, b), "ret", Adt("Ordering", [], "Less")),
+            (a == b, "ret", Adt("Ordering", [], "Equal")),
+            (z3.UGT(a, b), "ret", Adt("Ordering", [], "Greater"))]
 
 
 def m_partial_ord_default(which):
@@ -963,6 +988,7 @@ CORE_MODELS = {
     r"^Option::<.*>::expect$": m_expect,
     r"^Option::<.*>::unwrap$": m_expect,
     r"^Result::<.*>::unwrap_or$": m_unwrap_or,
+    r"^<(u8|u16|u32|u64|usize) as (std::cmp::)?Ord>::cmp$": m_int_cmp,
     r"^(std::)?cmp::max::<\w+>$": m_max_min("max"),
     r"^(std::)?cmp::min::<\w+>$": m_max_min("min"),
     r"^<\w+ as (std::cmp::)?PartialOrd>::partial_cmp$": m_int_partial_cmp,
